@@ -412,6 +412,7 @@ func runCrashCase(c *crashCase) (impl, pred string) {
 
 func init() {
 	register("C03", func(o *out, replay string) {
+		idleHostStdin()
 		if replay != "" {
 			_, m := kvLine(replay)
 			c := &crashCase{m["proto"], m["point"]}
